@@ -4,6 +4,7 @@ import Uom.Model.LabelCheck
 import Uom.Gen.Check.Labels
 import Uom.Proofs.TextLemmas
 import Uom.Proofs.BodyEq.Text
+import Uom.Proofs.BodyEq.FmtGlue
 /-!
 # C12 — parsing accepts exactly `<number> <unit label>` and inverts formatting
 
@@ -266,6 +267,18 @@ theorem src_roundtrip_table {V Q : Type} (parse : Bytes → Option V) (mk : Nat 
   refine ⟨j, v, hj, hsame, ?_⟩
   rw [quantity_arguments_fmt_eq, from_str_eq, hrt]
   rfl
+
+/-- the three error variants `from_str` can return are three different values and each displays its own message
+    (`Display for ParseQuantityError`, regenerated from src/lib.rs) -/
+theorem src_parse_error_display :
+    (c_NoSeparator ≠ c_ValueParseError ∧ c_NoSeparator ≠ c_UnknownUnit ∧ c_ValueParseError ≠ c_UnknownUnit) ∧
+    run Uom.BodyEq.FmtGlue.envNone lib_Display_for_ParseQuantityError_fmt [.ctor0 c_NoSeparator, .fmtr] =
+      (.val (.ctor1 cOk .unit), Uom.BodyEq.FmtGlue.ascii "no space between quantity and units") ∧
+    run Uom.BodyEq.FmtGlue.envNone lib_Display_for_ParseQuantityError_fmt [.ctor0 c_ValueParseError, .fmtr] =
+      (.val (.ctor1 cOk .unit), Uom.BodyEq.FmtGlue.ascii "error parsing unit quantity") ∧
+    run Uom.BodyEq.FmtGlue.envNone lib_Display_for_ParseQuantityError_fmt [.ctor0 c_UnknownUnit, .fmtr] =
+      (.val (.ctor1 cOk .unit), Uom.BodyEq.FmtGlue.ascii "unrecognized unit of measure") :=
+  ⟨Uom.BodyEq.FmtGlue.parse_error_ctors_distinct, Uom.BodyEq.FmtGlue.parse_error_display⟩
 
 end SourceTieRx
 
